@@ -113,7 +113,7 @@ def run_fuzz(cid, cfg, seed, env, work):
         e = dict(env)
         e.update({"VERIF_ROOT": ROOT, "VERIF_ID": cid, "VERIF_TIER": "thorough", "VERIF_SEED": str(seed), "VERIF_SHARD": "0", "VERIF_SHARDS": "1"})
         cmd = ["go", "test", "-tags", "verif", "-vet=off", "-run", "^$", "-fuzz", "^%s$" % target, "-fuzztime", "%ds" % fz["seconds"],
-               "-test.fuzzcachedir", os.path.join(work, "fuzzcache"), "./checks/" + cfg["pkg"]]
+               "./checks/" + cfg["pkg"], "-test.fuzzcachedir=" + os.path.join(work, "fuzzcache")]
         if REPO != "/repo":
             cmd[2:2] = ["-modfile", os.path.join(ROOT, ".build", "go.alt.mod")]
         try:
